@@ -94,12 +94,47 @@ pub struct C03Model {
     pub inner: C01Model,
     pub history: History,
     pub mapped: bool,
+    /// operations applied without running triggered tasks; Pump / Step are
+    /// operations; no refresh round: key-roll intermediate states (old key
+    /// publishing only manifest + CRL) are observed
+    pub raw: bool,
 }
 
 impl Model for C03Model {
+    fn apply(&mut self, w: &mut World, op: &Op) -> OpOutcome {
+        // raw configuration: only the activation is left un-pumped, so that
+        // the old key keeps publishing its manifest and CRL
+        if self.raw && matches!(op, Op::RollActivate { .. } | Op::SyncRepo { .. }) {
+            w.apply(op)
+        } else {
+            w.apply_pumped(op)
+        }
+    }
+
     fn alphabet(&mut self, w: &World, depth: usize, path: &[Op]) -> Vec<Op> {
         let c = || "ca".to_string();
         let p = || "parent".to_string();
+        if self.raw {
+            if path.is_empty() {
+                // prime the monitor with the initial repository content
+                if let Ok(lists) = rp::view_from_lists(w) {
+                    let r = rp::validate(w, &lists);
+                    let dummy = crate::e1::Shared::new();
+                    let _ = self.history.observe(&r, dummy.header());
+                }
+            }
+            return vec![
+                Op::Roa { ca: c(), add: vec![c01::ROA_B.into()], del: vec![] },
+                Op::Roa { ca: c(), add: vec![], del: vec![c01::ROA_A.into()] },
+                Op::ForceRenewRoas,
+                Op::Entitle { parent: c(), child: "gc".into(), res: r3("AS65001", "10.0.0.0/25", "") },
+                Op::RemoveChild { parent: c(), child: "gc".into() },
+                Op::RollInit { ca: c() },
+                Op::RollActivate { ca: c() },
+                Op::SyncRepo { ca: c() },
+                Op::Pump,
+            ];
+        }
         let mut ops = vec![
             Op::Roa { ca: c(), add: vec![c01::ROA_A.into()], del: vec![] },
             Op::Roa { ca: c(), add: vec![c01::ROA_C.into(), c01::ROA_D.into()], del: vec![] },
@@ -136,6 +171,19 @@ impl Model for C03Model {
         self.inner.intent.update(op, out);
         if let Some(f) = &out.fatal {
             return vec![("fatal".into(), f.clone())];
+        }
+        if self.raw {
+            // observe the repository as it is; an object only counts as
+            // "stopped being current" once it has left the repository
+            if let Op::SyncRepo { .. } = op {
+                let _ = w.krill.repo_manager().update_rrdp_if_needed();
+            }
+            let lists = match rp::view_from_lists(w) {
+                Ok(x) => x,
+                Err(e) => return vec![("view".into(), e)],
+            };
+            let r = rp::validate(w, &lists);
+            return self.history.observe(&r, hdr);
         }
         // "after the next synchronisation": every CA had its turn
         if let Err(f) = w.settle() {
@@ -205,16 +253,32 @@ pub fn run(tier: &Tier, args: &[String]) -> i32 {
     ];
     let depth = crate::report::arg_value(args, "--depth")
         .and_then(|d| d.parse().ok())
-        .unwrap_or(if tier.thorough { 4 } else { 3 });
+        .unwrap_or(if tier.thorough { 5 } else { 4 });
     let cap = crate::report::arg_value(args, "--cap")
         .and_then(|d| d.parse().ok())
-        .unwrap_or(if tier.thorough { 1500 } else { 50 });
+        .unwrap_or(if tier.thorough { 1500 } else { 55 });
     let mk = |two: bool, mapped: bool| C03Model {
         inner: C01Model { intent: Intent::default(), full_alphabet: true, two_parents: two },
         history: History::default(),
         mapped,
+        raw: false,
     };
     let mut configs = vec![
+        Config {
+            name: "w3-raw-roll-steps".into(),
+            build: Box::new(|| {
+                let mut w = c01::build_w3(c01::world_cfg(2, 2))?;
+                let o = w.apply_pumped(&Op::Roa {
+                    ca: "ca".into(), add: vec![c01::ROA_A.into()], del: vec![],
+                });
+                if !o.ok {
+                    return Err(format!("set-up failed: {:?}", o.err));
+                }
+                w.settle()?;
+                Ok(w)
+            }),
+            model: C03Model { raw: true, ..mk(false, false) },
+        },
         Config {
             name: "w3-mapped-class".into(),
             build: Box::new(|| build_mapped(c01::world_cfg(2, 2))),
